@@ -171,6 +171,9 @@ fn children<'a>(n: &Node<'a>) -> Vec<Node<'a>> {
 }
 
 fn child<'a>(n: &Node<'a>, step: Step, via: Option<String>, v: &'a J) -> Node<'a> {
+    // copying the location costs in proportion to its length: deep documents pay for it out of the same
+    // budget, so that a reference evaluation stays in the range of milliseconds there too
+    let _ = spend(n.steps.len() / 16);
     let mut steps = n.steps.clone();
     steps.push(PStep { step, via });
     Node { steps, v }
